@@ -92,8 +92,26 @@ def plans(draw):
           'pairs': False}
 
 
+@st.composite
+def close_under_load_plans(draw):
+  """The client is closed while several calls are parked on a ThriftMux connection whose server has gone silent: closing
+  fails them on the spot, and each of those completions passes through the balancer on its way out."""
+  res = draw(st.sampled_from([[5, 60, 1.2], [2, 10, 1.5]]))
+  nports = draw(st.sampled_from([2, 3, 3]))
+  start = draw(st.sampled_from([2, 4])) * 1000 + draw(st.integers(0, 999))
+  burst_at = start + draw(st.sampled_from([50, 400]))
+  close_at = burst_at + draw(st.sampled_from([1500, 3000, 3100, 5000]))
+  return {'close_on_error': None, 'affected': None, 'stagger_ms': 0, 'stagger_order': 'asc', 'refuse_delay_ms': None, 'close_on_connect': None,
+          'seed': draw(st.integers(0, 2 ** 16)), 'stack': 'thriftmux', 'balancer': draw(st.sampled_from(['default', 'default', 'heap'])),
+          'resurrector': res, 'ports': [9001 + i for i in range(nports)], 'period_ms': 2000,
+          'phases': [[start, start + 60000, 'silent']], 'end_ms': close_at + 25000, 'close_at': close_at, 'pool_max': None,
+          'blackhole_s': 15, 'pairs': False,
+          'burst': {'at_ms': burst_at, 'n': draw(st.integers(3, 8)), 'timeout_ms': 30000}}
+
+
 def strategy(tier):
-  return plans()
+  from vf.gen import weighted
+  return weighted((5, plans()), (1, close_under_load_plans()))
 
 
 def to_world(plan):
@@ -129,6 +147,11 @@ def to_world(plan):
   while t < plan['end_ms']:
     calls.append({'at': t, 'method': 'hi', 'arg': 'c%d' % k, 'timeout_ms': None, 'via_dispatcher': False})
     k += 1
+    b = plan.get('burst')
+    if b and t <= b['at_ms'] < t + plan['period_ms']:
+      for _ in range(b['n']):
+        calls.append({'at': b['at_ms'], 'method': 'hi', 'arg': 'c%d' % k, 'timeout_ms': b['timeout_ms'], 'via_dispatcher': True})
+        k += 1
     if plan.get('pairs'):
       calls.append({'at': t, 'method': 'hi', 'arg': 'c%d' % k, 'timeout_ms': None, 'via_dispatcher': False})
       k += 1
@@ -228,6 +251,13 @@ def execute(plan):
           if r.first and r.first[1] == 'error':
             observed = r.first[0]
             break
+        # ... so, if the silence lasts, calls stop waiting for their deadlines at some point within that allowance
+        limit = D + 46.0 + 6.0 + period
+        if R_eff - D >= 62.0 + period and not partial and (observed is None or observed > limit) and not plan.get('burst'):
+          raise Violation(ID, 'blackhole-not-detected', 'endpoints silent from %.1f s to %.1f s: %s; every call until then waited for its deadline (keep-alive ping period 30-40 s, ping timeout 5 s)' % (
+              start_ms / 1000.0, stop_ms / 1000.0, 'the first call that failed without waiting came at %.1f s' % (ms(observed) / 1000.0) if observed else 'no call ever failed without waiting'))
+        if observed is not None:
+          flags.add('blackhole_detected_by_ping')
       elif kind == 'refuse':
         observed = D + 0.05
       elif plan['stack'] == 'thriftmux':
@@ -411,4 +441,5 @@ def execute(plan):
       if r.first and r.first[1] == 'value' and r.first[2] not in [echo(p, 'hi', r.arg) for p in ports]:
         raise Violation(ID, 'foreign-value', 'call %d returned %r' % (r.id, r.first[2]))
   return Outcome(nontrivial=sorted(flags) if ('recovery_observed' in flags or 'staggered_recovery_observed' in flags) else None,
-                 classes=['stack=' + plan['stack'], 'balancer=' + plan['balancer'], 'ports=%d' % len(plan['ports'])] + sorted(flags))
+                 classes=['stack=' + plan['stack'], 'balancer=' + plan['balancer'], 'ports=%d' % len(plan['ports'])] + sorted(flags) +
+                 (['closed_with_a_burst_of_calls_parked'] if plan.get('burst') else []))
